@@ -124,6 +124,18 @@ def search_c06():
             if not (0 <= p <= 1) or abs(p - want) > 1e-12:
                 return _fail('t_test_0', dict(evaluation=e, variance=v, dof=dof), p, float(want),
                              'the against-zero p-value is not the one-sided t-test of the evaluation')
+    from rsatoolbox.util.inference_util import t_test_nc
+    for dof in (1, 4, 20):
+        for evs, nc in itertools.product([[-2.0, 0.3], [0.5, 0.5, 0.9], [0.0]], [-0.5, 0.0, 0.5, 0.7]):
+            for v in (0.0, 1e-20, 0.25, 4.0):
+                var = np.array([v * (k + 1) for k in range(len(evs))])
+                p = np.asarray(t_test_nc(np.array([evs]), var, nc, dof=dof), dtype=float)
+                want = np.array([2 * (1 - stats.t.cdf(abs((e - nc) / np.sqrt(max(w, np.finfo(float).eps))), dof))
+                                 for e, w in zip(evs, var)])
+                if p.shape != want.shape or not np.all((0 <= p) & (p <= 1)) or np.max(np.abs(p - want)) > 1e-12:
+                    return _fail('t_test_nc', dict(evaluations=evs, variances=var.tolist(), noise_ceil=nc, dof=dof),
+                                 p.tolist(), want.tolist(),
+                                 'the noise-ceiling p-values are not the two-sided t-tests of evaluation - ceiling')
     for n_pattern, n_rdm in itertools.product(ns, ns):
         for v in vals:
             out = float(_correct_1d(np.float64(v), n_pattern, n_rdm))
